@@ -294,15 +294,68 @@ def decision_names(spec):
     return set(out)
 
 
+class _ProbeEnv:
+    """numeric probe: does an expression really depend on the given symbols (after cancellations)?"""
+
+    def __init__(self, vals):
+        self.vals = vals
+        self.t, self.T, self.t0, self.DT, self.DTc = 0.37, 1.3, -0.2, 0.11, 0.33
+
+    def sym(self, name, i, j):
+        return self.vals.setdefault((name, i, j), 0.1 + 0.01 * (hash((name, i, j)) % 97))
+
+    def placeholder(self, kind, e):
+        return E.ev(e, self)
+
+    def offset(self, e, k):
+        return E.ev(e, self)
+
+
+def really_depends(body, names, rng, tvals=(0.37,)):
+    """the dependence must survive at every probed time (e.g. factors of t vanish at t0 = 0)"""
+    for tv in tvals:
+        base = _ProbeEnv({})
+        base.t = tv
+        v0 = E.ev(body, base)
+        ok = False
+        for trial in range(2):
+            vals = dict(base.vals)
+            for key in list(vals):
+                if key[0] in names:
+                    vals[key] = vals[key] + rng.uniform(0.3, 0.9)
+            pe = _ProbeEnv(vals)
+            pe.t = tv
+            if abs(E.ev(body, pe) - v0) > 1e-9:
+                ok = True
+                break
+        if not ok:
+            return False
+    return True
+
+
+def probe_times(spec):
+    tv = [0.37]
+    if spec["t0"]["kind"] == "num":
+        tv.append(spec["t0"]["val"])
+        if spec["T"]["kind"] == "num":
+            tv.append(spec["t0"]["val"] + spec["T"]["val"])
+    elif spec["t0"]["kind"] == "param":
+        tv.append(spec["t0"]["val"])
+    return tuple(tv)
+
+
 def ensure_decision(rng, spec, body, states_only=False):
     """Opti rejects constraints without decision variables: make sure a state element is involved."""
     dn = decision_names(spec)
     if states_only:
         # controls / per-interval quantities at tf repeat the last interval's value and can cancel against t0 (N=1)
         dn = {s["name"] for s in spec["states"]}
-    if any(n[0] == "s" and n[1] in dn for n in E.walk(body)):
-        return body
-    return ["+", body, rng.choice(spec["leaves"]["x"])]
+    for _ in range(4):
+        if any(n[0] == "s" and n[1] in dn for n in E.walk(body)) and really_depends(body, dn, rng, probe_times(spec)):
+            return body
+        # (x - x, a + neg(a) ... cancel symbolically: a square of a state cannot be cancelled by accident)
+        body = ["+", body, ["*", E.rand_const(rng), ["sq", rng.choice(spec["leaves"]["x"])]]]
+    return body
 
 
 def gen_constraint(rng, spec, cid, grids=("control",), allow_offsets=True, allow_point=True):
